@@ -3,6 +3,7 @@
    run (gen/SrcGen.v): decideOnStep, eventLess, Iton and the named constants.
    A change of the Go source that alters one of these functions changes
    gen/SrcGen.v and breaks the corresponding lemma here. *)
+From Coq Require Import String.
 From Bio Require Import Base.
 From Bio.gen Require Import SrcGen Tables.
 From Bio.Model Require Import Align Regions Seq Fasta.
@@ -110,3 +111,20 @@ Proof.
   intros H. injection H as <-. destruct (Bed.b_rgb b) as [[r g] bl] eqn:E.
   cbn zeta. unfold Bed.rgb_text, Bed.fmt_byte. reflexivity.
 Qed.
+
+(* ---- where the iterators call their callback (C18) --------------------------------
+   gen/SrcGen.v lists, for every iterator function literal of the library, the syntactic
+   context of each callback call: guarded (0), terminal (1) or bare (2). No call is bare,
+   and the list of iterators is the expected one. *)
+Lemma iter_yields_guarded :
+  forallb (fun p => forallb (fun k => (k <? 2)%N) (snd p)) iter_yields = true.
+Proof. vm_compute. reflexivity. Qed.
+
+Lemma iter_yields_names :
+  map fst iter_yields =
+  [ "fasta.reader.iter#0"; "fasta.File#0"; "fasta.Reader#0";
+    "fastq.reader.iter#0"; "fastq.File#0"; "fastq.Reader#0";
+    "sam.ReaderHeader#0"; "sam.Reader#0"; "sam.File#0"; "sam.FileHeader#0";
+    "bed.Reader#0"; "bed.File#0"; "newick.Reader#0"; "newick.File#0";
+    "newick.Node.traverse#0"; "trie.Trie.ForEach#0"; "sequtil.CanonicalSubsequences#0" ]%string.
+Proof. reflexivity. Qed.
